@@ -4,7 +4,7 @@
    (see DESIGN.md Appendix A for the yield-point tables).  Model only. *)
 From Coq Require Import List ZArith Bool Arith.
 From RecordUpdate Require Import RecordUpdate.
-From FV Require Import ListLemmas Kernel SrcFragments TieB Accounting World.
+From FV Require Import ListLemmas Kernel SrcFragments Lens Accounting World.
 From FV Require StoreB.
 Import ListNotations.
 Open Scope Z_scope.
